@@ -2,7 +2,7 @@
 import itertools
 import wire
 from wire import mk_fmt, cells
-from props.common import layouts, chunks_for, reply_fmt, guarded, canon_cells, PALETTE, api_pool
+from props.common import layouts, chunks_for, reply_fmt, guarded, canon_cells, canon_eff_cells, eff_cells, PALETTE, api_pool
 
 PROP = "C06"
 MODULES = ["Curtsies.Properties.C06"]
@@ -279,7 +279,7 @@ def oracle(c):
         return "%s returned %r, str would raise %s" % (c["op"], r, exp[1])
     try:
         got = cells(r)
-        if got != exp[1]:
+        if eff_cells(got) != eff_cells(exp[1]):     # formatting = what the character shows: bold=False is "not bold"
             return "%s: characters/formatting differ: got %r expected %r" % (c["op"], got, exp[1])
         text = "".join(ch for ch, _ in exp[1])
         if r.s != text:
@@ -288,11 +288,11 @@ def oracle(c):
             return "%s: len() is %d, number of characters is %d" % (c["op"], len(r), len(exp[1]))
         if bool(r) != bool(text):
             return "%s: truth value differs from that of the text" % c["op"]
-        if r.s != text or len(r) != len(exp[1]) or cells(r) != exp[1]:
+        if r.s != text or len(r) != len(exp[1]) or eff_cells(cells(r)) != eff_cells(exp[1]):
             return "%s: a second observation of the result differs from the first" % c["op"]
         for o, spec in LAST_OPERANDS:
             want = wire.cells_of_chunks(spec)
-            if cells(o) != want or o.s != "".join(ch for ch, _ in want) or len(o) != len(want):
+            if eff_cells(cells(o)) != eff_cells(want) or o.s != "".join(ch for ch, _ in want) or len(o) != len(want):
                 return "%s: an operand changed (now %r)" % (c["op"], o)
     except Exception as e:  # noqa: BLE001 - observing the result must not raise
         return "%s: observing the result (.s / len / chunks) raised %s: %s" % (c["op"], type(e).__name__, e)
@@ -309,7 +309,7 @@ def d27_shaped(c):
 def footprint(c, what):
     """D27: join with a plain-str item containing ESC[, where EVERYTHING the real code does is what parsing that item
     with fmtstr(str) explains - judged against the Lean model's `joinItems` (an independent parser, not the tree's own
-    fmtstr): same runs, and .s / len / truth value / a second observation / unchanged operands all consistent with
+    fmtstr): same characters with the same effective formatting, and .s / len / truth value / a second observation / unchanged operands all consistent with
     that parsed value. Any other deviation on such an input is an unlisted violation."""
     if not d27_shaped(c):
         return None
@@ -320,11 +320,11 @@ def footprint(c, what):
         want = wire.cells_of_chunks(wire.dec_fmt(reply[3:]))
         r = run_impl(c)
         text = "".join(ch for ch, _ in want)
-        ok = (reply_fmt(r) == reply and cells(r) == want and r.s == text and len(r) == len(want) and bool(r) == bool(text)
-              and r.s == text and len(r) == len(want))
+        ok = (eff_cells(cells(r)) == eff_cells(want) and r.s == text and len(r) == len(want) and bool(r) == bool(text)
+              and r.s == text and len(r) == len(want))      # per character, effective formatting; run layout is not judged
         for o, spec in LAST_OPERANDS:
             w2 = wire.cells_of_chunks(spec)
-            ok = ok and cells(o) == w2 and o.s == "".join(ch for ch, _ in w2) and len(o) == len(w2)
+            ok = ok and eff_cells(cells(o)) == eff_cells(w2) and o.s == "".join(ch for ch, _ in w2) and len(o) == len(w2)
         return "D27" if ok else None
     except Exception:  # noqa: BLE001
         return None
@@ -341,7 +341,8 @@ def check(ctx):
     except Exception as e:  # noqa: BLE001 - without the model nothing is attributed to D27
         ctx.note("D27 expectations unavailable: %r" % (e,))
     # property level: per-character view, inputs inside the quantifier (slice steps are outside it)
-    ctx.tie("C06/ops", [c for c in cases if in_quantifier(c)], line, impl, canon_cells, canon_cells)
+    ctx.tie("C06/ops", [c for c in cases if in_quantifier(c)], line, impl, canon_eff_cells, canon_eff_cells)
+    ctx.tie("C06/ops-raw-attributes", cases, line, impl, canon_cells, canon_cells, level="representation")   # explicit False vs absent key
     # representation level: run structure too (C09/C15/C16 reuse getslice) and the refusal of slice steps; a difference
     # here deepens the search but is no verdict while the per-character tie above holds
     ctx.tie("C06/ops-run-level", cases, line, impl, level="representation")
